@@ -3,6 +3,7 @@
 package kernel
 
 import (
+	"bytes"
 	"encoding/binary"
 	"encoding/hex"
 	"fmt"
@@ -867,8 +868,61 @@ func c28Redelivery(w *c28World, r int, replaying bool, report func(key, desc str
 	}
 	if !replaying {
 		c28CheckRecords(w, report)
+		w.rebatched(op, report)
 	}
 	return true
+}
+
+// rebatched: an ALREADY FINALIZED consensus operation offered again inside a
+// finalized multi-transaction snapshot of another node, through the real
+// validateSnapshotTransaction(s, true) (the path a peer's finalization takes),
+// with batchable companions sorting before and after the operation's hash.
+func (w *c28World) rebatched(op c28Op, report func(key, desc string)) {
+	to := []*common.Address{&w.wallet}
+	var lo, hi *common.VersionedTransaction
+	for i := 0; i < 64 && (lo == nil || hi == nil); i++ {
+		comp := w.m.Net.DepositXIN(fmt.Sprintf("c28-rebatch-%s-%d", op.Tx.String()[:8], i), "1", to, 1)
+		h := comp.PayloadHash()
+		if bytes.Compare(h[:], op.Tx[:]) < 0 {
+			if lo == nil {
+				lo = comp
+			}
+		} else if hi == nil {
+			hi = comp
+		}
+	}
+	orig := w.snaps[op.Snap]
+	for name, comp := range map[string]*common.VersionedTransaction{"companion-sorts-first": lo, "companion-sorts-last": hi} {
+		if comp == nil {
+			continue
+		}
+		if err := w.m.Store.CacheStoreTransaction(comp); err != nil {
+			continue
+		}
+		var s2 *common.Snapshot
+		for _, id := range w.m.Net.NodeIds[1:] {
+			if id != orig.NodeId {
+				hs := []crypto.Hash{comp.PayloadHash(), op.Tx}
+				if name == "companion-sorts-last" {
+					hs = []crypto.Hash{op.Tx, comp.PayloadHash()}
+				}
+				s2 = w.snapshot(id, w.last().Ts+2, hs...)
+				break
+			}
+		}
+		if s2 == nil {
+			continue
+		}
+		var err error
+		var missing []crypto.Hash
+		p, _ := c28Catch(func() { _, missing, err = w.node.validateSnapshotTransaction(s2, true) })
+		w.c.Eval(1)
+		if p == nil && err == nil && len(missing) == 0 {
+			w.violate(report, "batch:finalized-consensus-operation-rebatched:"+c28Kinds[op.Kind], fmt.Sprintf("a finalized snapshot of another node batching the already finalized %s with a deposit (%s) passes validateSnapshotTransaction(s,true)", c28Kinds[op.Kind], name))
+		} else {
+			w.c.Outcome("rebatched:refused")
+		}
+	}
 }
 
 // c28CheckRecords reads the CONSENSUSSNAPSHOT records in key order and compares
